@@ -43,7 +43,7 @@ def gen_cases(prop, tier, seed):
         c["id"] = "%s-%05d" % (c["entry"], i)
         c["allow_dup_candidates"] = True
         c["ru"] = True if prop == "C02" else bool(stable_hash(c["seed"], "ru") % 2)
-        c["kwv"] = [0, 0, 1, 2, 3, 4, 5, 6][stable_hash(c["seed"], "kwv") % 8]      # call variant: default / pre-fitted / weights / lists / layout / float32
+        c["kwv"] = [0, 0, 1, 2, 3, 4, 5, 6, 7][stable_hash(c["seed"], "kwv") % 9]      # call variant: default / pre-fitted / weights / lists / layout / float32
     return cases
 
 
